@@ -155,22 +155,22 @@ func toVA(vs []resolve.Version, byText map[string]int) []va {
 }
 
 type matchObs struct {
-	Kind    string      `json:"kind"`
-	Sys     string      `json:"sys"`
-	Entries []va        `json:"entries"`
-	R       int         `json:"r"`
-	Req     string      `json:"req"`
-	Outs    [][]va      `json:"outs"`   // distinct results of resolve.MatchRequirement over all permutations
-	LcOuts  [][]va      `json:"lcouts"` // distinct results of LocalClient.MatchingVersions over all insertion orders
-	Intact  bool        `json:"intact"` // the input slice still holds the same entries after the call
-	Perms   int         `json:"perms"`
+	Kind    string `json:"kind"`
+	Sys     string `json:"sys"`
+	Entries []va   `json:"entries"`
+	R       int    `json:"r"`
+	Req     string `json:"req"`
+	Outs    [][]va `json:"outs"`   // distinct results of resolve.MatchRequirement over all permutations
+	LcOuts  [][]va `json:"lcouts"` // distinct results of LocalClient.MatchingVersions over all insertion orders
+	Intact  bool   `json:"intact"` // the input slice still holds the same entries after the call
+	Perms   int    `json:"perms"`
 }
 
 type sortObs2 struct {
 	Kind    string `json:"kind"`
 	Sys     string `json:"sys"`
 	Entries []va   `json:"entries"`
-	Outs    [][]va `json:"outs"` // distinct results of resolve.SortVersions
+	Outs    [][]va `json:"outs"`   // distinct results of resolve.SortVersions
 	LcOuts  [][]va `json:"lcouts"` // LocalClient.Versions after inserting in each order
 }
 
